@@ -125,10 +125,12 @@ func (x *chanExec) do(g string, op COp) {
 		ctl.Gate("drv.call")
 		r.Add(rec.Ev{"ev": "cancel", "g": g, "ctx": op.Ctx})
 		x.cancels[op.Ctx]()
+		r.Add(rec.Ev{"ev": "cancelled", "g": g, "ctx": op.Ctx})
 	case "pcancel":
 		ctl.Gate("drv.call")
 		r.Add(rec.Ev{"ev": "cancel", "g": g, "ctx": 100})
 		x.pcancel()
+		r.Add(rec.Ev{"ev": "cancelled", "g": g, "ctx": 100})
 	}
 }
 
